@@ -358,6 +358,10 @@ fn main() {
         "run" => {
             let rt = tokio::runtime::Builder::new_current_thread().enable_all().build().unwrap();
             rt.block_on(run(&a.str_or("ops", "cases.ops"), &a.str_or("out", "impl.out"), a.get("stats")));
+            // everything is written and flushed: leave without running the C library's exit handlers, which
+            // race with the database / verification threads that are still alive (seen once as a SIGSEGV at exit)
+            std::mem::forget(rt);
+            unsafe { libc::_exit(0) }
         }
         _ => {
             eprintln!("usage: dv-serve enum08|gen08|enum19|gen19|run …");
